@@ -30,12 +30,20 @@ EXPLANATION = ('CrossHair executes assertz and the fact look-up on terms whose v
                'the assertion in a symbolic order, then matches the stored fact against two symbolic patterns; every answer (patterns, '
                'pattern variables, pool variables) is compared with the reference copy semantics; CONFIRMED = path tree exhausted')
 BIND_S = [['v0', 'v1', 'int', 'F1'], ['v1', 'v2', 'int']]          # bindings of the storage obligation
+# facts with two top-level arguments that share a variable (renaming must be consistent across arguments)
+FACT_ARGS = {
+    'p(v0,v0)': [('v', 0), ('v', 0)],
+    'p(v0,f(v0))': [('v', 0), ('f', 'f', (('v', 0),))],
+    'p(g(v0,v1),v1)': [('f', 'g', (('v', 0), ('v', 1))), ('v', 1)],
+}
 PAT_READ = [['v0']]                                                  # p(W0): reads the stored term back
 PAT_2ND = [['v0', 'v1', 'int']]
 PAT_RICH = [['v0', 'v1', 'int', 'A', 'F1'], ['v0', 'v1', 'int']]     # patterns of the uses obligation
+PAT_RICH2 = [['v0', 'int', 'F1', 'F2'], ['v0', 'v1', 'int']]         # with the binary functor, no bindings
 FAMILIES = {
     'storage': (BIND_S, PAT_READ, PAT_2ND),
     'uses': (BIND_S, PAT_RICH, PAT_RICH),
+    'uses2': (BIND_S, PAT_RICH2, PAT_RICH2),
 }
 
 
@@ -63,7 +71,7 @@ def make_body(template, fam, info):
     BINDL, P1L, P2L = FAMILIES[fam]
     spec, nc = spec_for(nb, fam)
     ix = ch.index_of(spec)
-    rT = TEMPLATES[template]
+    targs = FACT_ARGS[template] if template in FACT_ARGS else [TEMPLATES[template]]
 
     def body(vals):
         ch.install_registry(False)
@@ -71,7 +79,7 @@ def make_body(template, fam, info):
         vs = [Variable() for _ in range(NV)]
         ws = [Variable() for _ in range(3)]
         dec = Decoder(vs, NAMES, vals[:nc], vals[nc:2 * nc])
-        T = realise(rT, vs)
+        Ts = [realise(t, vs) for t in targs]
         binds = []
         for j in range(nb):
             t, r = dec.term(BINDL)
@@ -86,6 +94,12 @@ def make_body(template, fam, info):
         P2, rP2 = dec.term(P2L)
         # reference pattern variables live at ids 10,11,12 (pool variables are 0,1,2)
         rP1, rP2 = _shift(rP1), _shift(rP2)
+        if len(targs) == 1:
+            A1, rA1, A2, rA2 = [P1], [rP1], [P2], [rP2]
+        else:
+            # two-argument facts: first use reads both arguments back, second use applies the decoded pattern to the first
+            A1, rA1 = [P1, ws[1]], [rP1, ('v', 11)]
+            A2, rA2 = [P2, ws[2]], [rP2, ('v', 12)]
         nbefore = vals[ix['nbefore']]
         after = vals[ix['after']]
         inside = vals[ix['inside']]
@@ -100,7 +114,7 @@ def make_body(template, fam, info):
                     if s is None:
                         return ch.HOLDS_TRIVIAL
                     plan.append(j)
-            interp.assert_fact('p', (rT,), s)
+            interp.assert_fact('p', tuple(targs), s)
             n_before = len(plan)
             if after:
                 s = runify(('v', binds[nb - 1][0]), binds[nb - 1][2], s)
@@ -109,11 +123,11 @@ def make_body(template, fam, info):
                 plan.append(nb - 1)
             s_use = s if inside else {}
             exp = []
-            for s1 in interp.query('p', [rP1], s_use):
-                for s2 in interp.query('p', [rP2], s1):
+            for s1 in interp.query('p', rA1, s_use):
+                for s2 in interp.query('p', rA2, s1):
                     names = {}
-                    exp.append(tuple([resolve(t, s2, names) for t in [rP1, rP2, ('v', 10), ('v', 11), ('v', 12),
-                                                                         ('v', 0), ('v', 1), ('v', 2)]]))
+                    exp.append(tuple([resolve(t, s2, names) for t in rA1 + rA2 + [('v', 10), ('v', 11), ('v', 12),
+                                                                                  ('v', 0), ('v', 1), ('v', 2)]]))
         except Cyclic:
             return ch.HOLDS_TRIVIAL
         # real
@@ -122,7 +136,7 @@ def make_body(template, fam, info):
             for pos, j in enumerate(plan):
                 if pos == n_before:
                     cnt = 0
-                    for _ in yp.query('assertz', [Functor('p', [T])]):
+                    for _ in yp.query('assertz', [Functor('p', list(Ts))]):
                         cnt += 1
                     if cnt != 1:
                         ch.note(info, 'assertz succeeded %d times', cnt)
@@ -135,17 +149,17 @@ def make_body(template, fam, info):
                     return ch.VIOLATED
                 opened.append(it)
             if n_before == len(plan):
-                for _ in yp.query('assertz', [Functor('p', [T])]):
+                for _ in yp.query('assertz', [Functor('p', list(Ts))]):
                     pass
             if not inside:
                 for it in reversed(opened):
                     it.close()
                 opened = []
             got = []
-            for _ in yp.query('p', [P1]):
-                for _ in yp.query('p', [P2]):
+            for _ in yp.query('p', list(A1)):
+                for _ in yp.query('p', list(A2)):
                     names = {}
-                    got.append(tuple([show(t, names) for t in [P1, P2] + ws + vs]))
+                    got.append(tuple([show(t, names) for t in A1 + A2 + ws + vs]))
                     if len(got) > 6:
                         break
                 if len(got) > 6:
@@ -187,13 +201,18 @@ def units(tier, seed):
             fixed.update({'k0': 0, 'k1': 0, 'k2': 0, 'w0': 0})
         if not after:
             fixed.update({'k6': 0, 'k7': 0, 'k8': 0, 'w2': 0})
-        us.append(dict(id='%s.T=%s.before%d.after%d.%s' % ('a' if fam == 'storage' else 'b', t, nbefore, int(after),
+        us.append(dict(id='%s.T=%s.before%d.after%d.%s' % ({'storage': 'a', 'uses': 'b', 'uses2': 'c'}[fam], t, nbefore, int(after),
                                                            'inside' if inside else 'outside'),
-                       template=t, family=fam, fixed=fixed, ob='C13.a' if fam == 'storage' else 'C13.b', timeout=timeout,
+                       template=t, family=fam, fixed=fixed, ob={'storage': 'C13.a', 'uses': 'C13.b', 'uses2': 'C13.c'}[fam], timeout=timeout,
                        weight=timeout / 4,
                        bounds='%s obligation: T=%s, %d bindings before, %d after the assertion (alphabet %r), patterns %r / %r, uses %s '
                               'the asserting context' % (fam, t, nbefore, int(after), FAMILIES[fam][0], FAMILIES[fam][1],
                                                          FAMILIES[fam][2], 'inside' if inside else 'outside')))
+    for t in FACT_ARGS:
+        for inside in (False, True):
+            add('storage', t, 1, True, inside, 300 if tier == 'quick' else 1500)
+    for t in names:
+        add('uses2', t, 0, False, False, 300 if tier == 'quick' else 1500)
     for t in names:
         for inside in (False, True):
             if tier == 'quick':
